@@ -1,3 +1,4 @@
 -- C07 — property theorems: merger = aggregate (C07Core) and the breakpoint loop's contract (C07Break)
 import CoolerModel.Props.C07Core
 import CoolerModel.Props.C07Break
+import CoolerModel.Props.C07Agg
